@@ -6,32 +6,33 @@ From Cam Require Export Cache.
 (* two byte ranges share a byte *)
 Definition overlap (a l a' l' : Z) : Prop := a < a' + l' /\ a' < a + l.
 
-(* The description declares its dependencies: whenever a cache key of register m (its address
-   and its length under some value of the index / length variables) can overlap the range written
-   by register n (its address and length under some, possibly other, value of the variables), n is
-   a pInvalidator of m - except for the very key (address AND length) n writes, which
-   write_and_cache maintains itself.  One valuation [vs] gives both the address and the length of
-   a register, so a variable that is selector and length at once is treated exactly.
-   For n = m this says: a register whose own keys can overlap one another - two selector positions
-   closer than the length, or one address under two producible lengths - is its own pInvalidator
-   (write_and_cache starts with invalidate_cache_by(nid), which then drops all of its blocks).
-   The code needs it: WriteThrough stores (nid, a, len) and keeps (nid, a, len') - see
-   P_C04.own_keys_need_self_invalidator. *)
+(* The description declares its dependencies, as the property text words it ("pInvalidator for
+   every node that can alter ANOTHER register's bytes"): whenever a cache key of register m (its
+   address and its length under some value of the index / length variables) can overlap the range
+   written by a DIFFERENT register n (its address and length under some, possibly other, value of
+   the variables), n is a pInvalidator of m.  One valuation [vs] gives both the address and the
+   length of a register, so a variable that is selector and length at once is treated exactly.
+   Nothing is asked of a register with respect to its own keys (one address under several lengths,
+   selector positions closer than the length): write_and_cache maintains them itself - since the
+   third "fix:" commit (fix_own); before it, it did not (P_C04.refuted_ownkeys). *)
 Definition Declared (y : system) : Prop :=
-  forall n m rn rm vs vs' a a',
-    node_at y n = Some (NReg rn) -> node_at y m = Some (NReg rm) ->
-    address rn vs = Ok a -> address rm vs' = Ok a' ->
-    overlap a (len_of rn vs) a' (len_of rm vs') ->
-    (n = m /\ a = a' /\ len_of rn vs = len_of rm vs') \/ In n (g_inval rm).
-
-(* the hypothesis as the property text words it ("every node that can alter ANOTHER register's
-   bytes"): nothing is asked of a register with respect to its own keys *)
-Definition DeclaredOthers (y : system) : Prop :=
   forall n m rn rm vs vs' a a',
     node_at y n = Some (NReg rn) -> node_at y m = Some (NReg rm) -> n <> m ->
     address rn vs = Ok a -> address rm vs' = Ok a' ->
     overlap a (len_of rn vs) a' (len_of rm vs') ->
     In n (g_inval rm).
+
+(* the same under its descriptive name *)
+Definition DeclaredOthers (y : system) : Prop := Declared y.
+
+(* the stronger hypothesis the theorems needed before fix_own: a register whose own keys can
+   overlap is its own pInvalidator as well *)
+Definition DeclaredOwnKeys (y : system) : Prop :=
+  forall n m rn rm vs vs' a a',
+    node_at y n = Some (NReg rn) -> node_at y m = Some (NReg rm) ->
+    address rn vs = Ok a -> address rm vs' = Ok a' ->
+    overlap a (len_of rn vs) a' (len_of rm vs') ->
+    (n = m /\ a = a' /\ len_of rn vs = len_of rm vs') \/ In n (g_inval rm).
 
 (* the bytes the device holds at [a, a+l), if the range lies in the image *)
 Definition peek (d : dev) (a l : Z) : option (list Z) :=
